@@ -651,6 +651,38 @@ def clone_deep(ctx, r):
     r.ob(bool(ok), "prelude.abra:Clone for array:not-a-deep-copy", PRELUDE, f[-1], f"array clone must create a fresh array, push Clone.clone(x) for every element x and return the new array (new={new}, pushed={pushed})", sample=f"Clone for array: new [] ; push {pushed} ; return {new}")
 
 
+@rule("CLONE-STORE", ["C26"], "a function of the prelude that builds a container from a Clone-constrained value stores clones only, never the value it was handed")
+def clone_store(ctx, r):
+    items = abra(ctx, r, PRELUDE)
+    if items is None:
+        return
+    n = 0
+    for it in items:
+        if it[0] != "extend":
+            continue
+        ty = it[1]
+        clone_params = {a[1] for a in (ty[2] if len(ty) > 2 else []) if isinstance(a, tuple) and len(a) > 3 and "Clone" in (a[3] or [])}
+        if not clone_params:
+            continue
+        for f in it[2]:
+            if f[4] is None:
+                continue
+            vals = {p[0] for p in f[2] if p[1] is not None and p[1][0] == "tname" and p[1][1] in clone_params}
+            fresh = {x[2][1] for x in A.walk(f[4]) if isinstance(x, tuple) and x and x[0] == "let" and x[2][0] == "pbind" and x[4][0] == "array" and not x[4][1]}
+            if not vals or not fresh:
+                continue
+            for x in A.walk(f[4]):
+                if isinstance(x, tuple) and x and x[0] == "call" and x[1][0] == "member" and x[1][2] in ("push", "insert") and x[1][1][0] == "var" and x[1][1][1] in fresh:
+                    for a in x[2]:
+                        n += 1
+                        arg = a[1]
+                        bare = arg[0] == "var" and arg[1] in vals
+                        r.ob(not bare, f"prelude.abra:{A.type_name(ty)}.{f[1]}:{arg[1] if bare else 'arg'}:stored-without-clone", PRELUDE, x[-1],
+                             f"{f[1]}: `{A.show(x)}` stores the caller's value itself in the new container: for element types that are references (arrays) the result then shares that element with the caller, and a later change to either shows in the other",
+                             sample=f"{f[1]}: stores {A.show(arg)}")
+    r.count("values stored into fresh containers by Clone-constrained builders", n, 1, PRELUDE)
+
+
 def must_use_as_index(stmts, param, recv="self"):
     """Does every path through `stmts` apply `param` as a subscript of `recv` (directly or via self.swap / array_get / array_set)?
     Uses inside loops or inside one branch only do not count (must-analysis)."""
